@@ -61,7 +61,7 @@ func TestLayoutSweep(t *testing.T) {
 										continue
 									}
 									c := memCase{Op: o.Name, Alg: alg, Mode: mode, Len: l, AadLen: []int{0, 13}[idx%2], Spare: [][]int{{0}, {24}, {3, 0, 64, 1, 16, 9}}[idx%3],
-										Dst: d, DstLen: []int{0, 5}[idx%2], Pack: ord, Gap: g, Cap: cm, Seed: uint64(idx) * 0x9e3779b97f4a7c15}
+										Dst: d, DstLen: []int{0, 5}[idx%2], Pack: ord, Gap: g, Cap: cm, Mem: sweepMem(idx), Seed: uint64(idx) * 0x9e3779b97f4a7c15}
 									msg, st := checkMem(c)
 									if msg != "" {
 										t.Fatalf("C17 caller memory violated: %s\ncase: %s", msg, c)
